@@ -2,6 +2,7 @@ package main
 
 import (
 	"context"
+	"crypto/sha1"
 	"crypto/sha256"
 	"encoding/hex"
 	"encoding/json"
@@ -280,6 +281,205 @@ pipeline TOP(
 	return
 }
 
+// Targeted inputs: one program class per kind of emitter that walks a map, each with >= 8 keys so
+// that Go's randomised iteration order shows within two or three repetitions.
+func c10Targeted(rng *rand.Rand) []struct{ class, lib, inv string } {
+	var out []struct{ class, lib, inv string }
+	ks := c10Keys(rng, 8+rng.Intn(5))
+	kv := func(f func(i int, k string) string) string {
+		var xs []string
+		for i, k := range ks {
+			xs = append(xs, f(i, k))
+		}
+		return strings.Join(xs, ", ")
+	}
+	add := func(class, lib, call string) {
+		out = append(out, struct{ class, lib, inv string }{class, lib, "@include \"lib.mro\"\n\n" + call})
+	}
+	// merge over a map call whose source is a literal map (MergeExp.MergeOver, encodeMapSourceJson,
+	// findMergeForkNode), two split arguments (unifyMapSources / sortedSplitList)
+	add("merge-over-literal-map", c10Stages+`
+pipeline TOP(
+    in  int      x,
+    out map<int> rs,
+    out map<txt> fs,
+)
+{
+    map call ONE(
+        v = split {`+kv(func(i int, k string) string { return fmt.Sprintf("%q: %d", k, i) })+`},
+        s = split {`+kv(func(i int, k string) string { return fmt.Sprintf("%q: \"s%d\"", k, i) })+`},
+    )
+
+    return (
+        rs = ONE.r,
+        fs = ONE.f,
+    )
+}
+`, "call TOP(\n    x = 1,\n)\n")
+	// the same over run-time maps handed in by the top-level call
+	add("merge-over-input-maps", c10Stages+`
+pipeline TOP(
+    in  map<int>    m1,
+    in  map<string> m2,
+    out map<int>    rs,
+)
+{
+    map call ONE(
+        v = split self.m1,
+        s = split self.m2,
+    )
+
+    return (
+        rs = ONE.r,
+    )
+}
+`, "call TOP(\n    m1 = {"+kv(func(i int, k string) string { return fmt.Sprintf("%q: %d", k, i) })+"},\n    m2 = {"+
+		kv(func(i int, k string) string { return fmt.Sprintf("%q: \"s%d\"", k, i) })+"},\n)\n")
+	// …with different key sets: the call-graph error names a key
+	add("split-input-maps-key-mismatch", c10Stages+`
+pipeline TOP(
+    in  map<int>    m1,
+    in  map<string> m2,
+    out map<int>    rs,
+)
+{
+    map call ONE(
+        v = split self.m1,
+        s = split self.m2,
+    )
+
+    return (
+        rs = ONE.r,
+    )
+}
+`, "call TOP(\n    m1 = {"+kv(func(i int, k string) string { return fmt.Sprintf("%q: %d", k, i) })+"},\n    m2 = {"+
+		kv(func(i int, k string) string { return fmt.Sprintf("%q: \"s%d\"", k+"_x", i) })+"},\n)\n")
+	// a stage `retain` list with duplicates (RetainParams.compile rebuilds it from a map)
+	var outs, rets []string
+	for i := range ks {
+		outs = append(outs, fmt.Sprintf("    out txt o%d,", i))
+		rets = append(rets, fmt.Sprintf("    o%d,", (i*5)%len(ks)))
+	}
+	rets = append(rets, "    o0,", "    o1,")
+	add("stage-retain-duplicates", `filetype txt;
+
+stage MANY(
+    in  int x,
+`+strings.Join(outs, "\n")+`
+    src comp "bin/many",
+) retain (
+`+strings.Join(rets, "\n")+`
+)
+
+pipeline TOP(
+    in  int x,
+    out txt o,
+)
+{
+    call MANY(
+        x = self.x,
+    )
+
+    return (
+        o = MANY.o0,
+    )
+}
+`, "call TOP(\n    x = 1,\n)\n")
+	// many references inside map / struct literals (FindTypedRefs, prenodes, edges)
+	var calls, refs []string
+	for i, k := range ks {
+		calls = append(calls, fmt.Sprintf("    call ONE as ONE_%d(\n        v = self.x,\n        s = \"%s\",\n    )\n", i, k))
+		refs = append(refs, fmt.Sprintf("%q: ONE_%d.r", k, i))
+	}
+	for _, variant := range []string{"references-in-map-literal", "untyped-map-with-references"} {
+		anything := `{"q": 1}`
+		if variant == "untyped-map-with-references" {
+			anything = "{" + strings.Join(refs, ", ") + "}"
+		}
+		add(variant, c10Stages+`
+pipeline TOP(
+    in  int x,
+    out int r,
+)
+{
+`+strings.Join(calls, "\n")+`
+    call TAKES_MAP(
+        m        = {`+strings.Join(refs, ", ")+`},
+        names    = {},
+        p        = {x: ONE_0.r, label: "l", w: 1.5, ys: [ONE_1.r, ONE_2.r], on: true},
+        pts      = {},
+        anything = `+anything+`,
+    )
+
+    return (
+        r = TAKES_MAP.r,
+    )
+}
+`, "call TOP(\n    x = 1,\n)\n")
+	}
+	return out
+}
+
+// which targeted classes exercise a function that contains a map-range site
+// (used to aim the failing-input search when the regenerated site list reports that function)
+var c10SiteGenerators = map[string][]string{
+	"encodeMapSourceJson":            {"merge-over-literal-map"},
+	"findMergeForkNode":              {"merge-over-literal-map", "merge-over-input-maps"},
+	"findMergeForkExpNode":           {"merge-over-literal-map", "merge-over-input-maps"},
+	"unifyMapSources":                {"merge-over-literal-map", "merge-over-input-maps", "split-input-maps-key-mismatch"},
+	"MergeMapCallSources":            {"split-maps-key-mismatch", "split-input-maps-key-mismatch"},
+	"SplitExp.BindingPath":           {"split-input-maps-key-mismatch", "merge-over-input-maps"},
+	"RetainParams.compile":           {"stage-retain-duplicates"},
+	"MapExp.FindTypedRefs":           {"references-in-map-literal"},
+	"MapExp.FindRefs":                {"references-in-map-literal", "untyped-map-with-references"},
+	"MapExp.resolveRefs":             {"references-in-map-literal", "map-literal-unknown-references"},
+	"ResolvedBindingMap.EncodeJSON":  {"references-in-map-literal", "wide-valid"},
+	"ResolvedBindingMap.MarshalJSON": {"references-in-map-literal", "wide-valid"},
+	"TypedMapType.IsValidExpression": {"typed-map-literal-ill-typed-entries", "typed-map-of-structs-ill-typed"},
+	"StructType.IsValidExpression":   {"struct-literal-ill-typed-fields", "struct-literal-missing-and-extra-fields"},
+	"isValidSplit":                   {"split-map-ill-typed-entries"},
+	"MapExp.sortedKeys":              {"typed-map-literal-ill-typed-entries", "split-map-ill-typed-entries"},
+	"MapExp.format":                  {"wide-valid", "generated"},
+	"MapExp.GoString":                {"typed-map-literal-ill-typed-entries"},
+	"MapExp.EncodeJSON":              {"wide-valid", "references-in-map-literal"},
+	"MapExp.MarshalJSON":             {"wide-valid"},
+	"makeForkIdParts":                {"wide-valid", "merge-over-literal-map"},
+	"ForkId.expandStaticForkPart":    {"wide-valid", "merge-over-literal-map"},
+	"LazyArgumentMap.encodeJSON":     {"core-argument-maps"},
+	"MarshalerMap.encodeJSON":        {"core-argument-maps", "wide-valid"},
+	"Node.makeReturnBindings":        {"generated", "wide-valid"},
+	"Node.makeDirectPrenodes":        {"generated", "references-in-map-literal"},
+	"Node.allNodes":                  {"generated"},
+}
+
+// the functions named by the regenerated fact c10Unreviewed (new / changed map-range sites)
+func c10ReportedFunctions(c *Ctx) []string {
+	h := sha1.Sum([]byte(c.RepoDir))
+	b, err := os.ReadFile(filepath.Join(".build", "facts-"+hex.EncodeToString(h[:])[:8]+".json"))
+	if err != nil {
+		return nil
+	}
+	var facts map[string]struct {
+		Value json.RawMessage `json:"value"`
+	}
+	if json.Unmarshal(b, &facts) != nil {
+		return nil
+	}
+	var v struct {
+		Unreviewed []string `json:"unreviewed"`
+	}
+	json.Unmarshal(facts["c10Unreviewed"].Value, &v)
+	var fns []string
+	for _, u := range v.Unreviewed {
+		// id = pkg/file.go:Func:range expr#n [note]
+		parts := strings.SplitN(u, ":", 3)
+		if len(parts) == 3 {
+			fns = append(fns, parts[1])
+		}
+	}
+	return fns
+}
+
 // ---------------------------------------------------------------------------
 // observations
 
@@ -417,6 +617,23 @@ func runC10(c *Ctx) {
 			}
 		}
 	}
+	// aim the search at the functions the regenerated site list reports as new / changed
+	boost := map[string]bool{}
+	for _, fn := range c10ReportedFunctions(c) {
+		if classes, ok := c10SiteGenerators[fn]; ok {
+			r.note("site list reports %s: failing-input search aimed at program classes %v (5x repetitions)", fn, classes)
+			for _, cl := range classes {
+				boost[cl] = true
+			}
+		} else {
+			r.note("site list reports %s: no targeted generator is registered for it; only the general repetition applies", fn)
+		}
+	}
+	for i := 0; i < (nshape+1)/2; i++ {
+		for _, tp := range c10Targeted(c.Rng) {
+			addProg(tp.class, map[string]string{"lib.mro": tp.lib}, tp.inv, true)
+		}
+	}
 	for i := 0; i < nshape; i++ {
 		for _, ep := range c10ErrorProgs(c.Rng) {
 			addProg(ep.class, map[string]string{"lib.mro": ep.lib}, ep.inv, true)
@@ -469,7 +686,14 @@ func runC10(c *Ctx) {
 				Impl:  map[string]string{"first": da, "later": db}, Expect: "byte-identical output",
 				Broken: "theorems Props.C10.*_order_independent (an emitter outside the reviewed sorted set)"})
 		}
-		for k := 1; k < reps; k++ {
+		nrep := reps
+		if p.class != "generated" && p.class != "wide-valid" {
+			nrep = reps / 4 // >= 8 keys: a difference shows within a few repetitions
+		}
+		if boost[p.class] {
+			nrep = reps * 5
+		}
+		for k := 1; k < nrep; k++ {
 			o := c10Observe(rt, p, c.Scratch, k <= stateReps, k)
 			if o.Compile != first[i].Compile {
 				what := "formatted-source"
@@ -489,7 +713,7 @@ func runC10(c *Ctx) {
 				report("fork-state-json", first[i].State, o.State, k)
 			}
 		}
-		r.Evals += reps - 1
+		r.Evals += nrep - 1
 	}
 
 	// ---- fresh subprocesses ----
@@ -536,6 +760,8 @@ func runC10(c *Ctx) {
 
 	// ---- MapExp.format / MarshalJSON vs the model ----
 	c10Literals(c, nlit)
+	c10Nested(c, nlit/2)
+	c10CoreMaps(c, boost["core-argument-maps"])
 }
 
 func head(s string, n int) string {
@@ -608,6 +834,57 @@ func c10GenMap(rng *rand.Rand, depth int) *syntax.MapExp {
 		m.Value[k] = c10GenExp(rng, depth)
 	}
 	return m
+}
+
+// nested map literal -> the driver's tree encoding; objects in Go's own iteration order (or reversed)
+func c10TreeEnc(e syntax.Exp, rev bool) string {
+	m, ok := e.(*syntax.MapExp)
+	if !ok || m.Value == nil {
+		b, _ := e.MarshalJSON()
+		return "L " + hx(string(b))
+	}
+	var ents []string
+	for k, v := range m.Value {
+		ents = append(ents, hx(k)+" "+hx(syntax.VerifQuoteString(k))+" "+c10TreeEnc(v, rev))
+	}
+	if rev {
+		for a, b := 0, len(ents)-1; a < b; a, b = a+1, b-1 {
+			ents[a], ents[b] = ents[b], ents[a]
+		}
+	}
+	return strings.TrimSpace(fmt.Sprintf("O %d %s", len(ents), strings.Join(ents, " ")))
+}
+
+func c10Nested(c *Ctx, n int) {
+	r := c.Res
+	var reqs [][]string
+	var want []string
+	for i := 0; i < n; i++ {
+		m := c10GenMap(c.Rng, 3)
+		if len(m.Value) == 0 {
+			continue
+		}
+		jb, err := m.MarshalJSON()
+		if err != nil {
+			continue
+		}
+		for _, rev := range []bool{false, true} {
+			reqs = append(reqs, []string{"C10.nested", c10TreeEnc(m, rev)})
+			want = append(want, string(jb))
+		}
+	}
+	reps := c.Drv.AskBatch(reqs)
+	for i := range reqs {
+		f := strings.Fields(reps[i])
+		r.Evals++
+		if len(f) != 2 || f[1] != "true" || unhx(f[0]) != want[i] {
+			r.violate(Violation{Kind: "correspondence", Key: "C10:model-mismatch:nested-json",
+				What:  "MapExp.MarshalJSON of a nested literal differs from the Lean nested emitter (sorted keys at every depth)",
+				Input: map[string]interface{}{"request": reqs[i]}, Impl: want[i], Model: reps[i],
+				Broken: "correspondence C10.nested (Martian.Determinism.JTree.emit)"})
+		}
+	}
+	r.hist("nested-literal-maps")
 }
 
 func c10Literals(c *Ctx, n int) {
@@ -687,4 +964,60 @@ func c10Literals(c *Ctx, n int) {
 			}
 		}
 	}
+}
+
+// core.LazyArgumentMap / core.MarshalerMap (the _args / _outs / per-fork argument encoders) marshalled
+// repeatedly with >= 8 keys, nested
+func c10CoreMaps(c *Ctx, boosted bool) {
+	r := c.Res
+	n, reps := 20, 30
+	if c.Thorough {
+		n = 300
+	}
+	if boosted {
+		reps *= 5
+	}
+	for i := 0; i < n; i++ {
+		ks := c10Keys(c.Rng, 8+c.Rng.Intn(8))
+		lazy := core.LazyArgumentMap{}
+		mm := core.MarshalerMap{}
+		inner := core.LazyArgumentMap{}
+		for j, k := range ks {
+			lazy[k] = json.RawMessage(fmt.Sprintf("%d", j))
+			inner[k+"_in"] = json.RawMessage(fmt.Sprintf("\"v%d\"", j))
+		}
+		for j, k := range ks {
+			switch j % 3 {
+			case 0:
+				mm[k] = json.RawMessage(fmt.Sprintf("[%d]", j))
+			case 1:
+				mm[k] = inner
+			default:
+				mm[k] = lazy
+			}
+		}
+		var first [2]string
+		for k := 0; k < reps; k++ {
+			b1, e1 := json.Marshal(lazy)
+			b2, e2 := json.Marshal(mm)
+			got := [2]string{string(b1) + fmt.Sprint(e1), string(b2) + fmt.Sprint(e2)}
+			if k == 0 {
+				first = got
+				continue
+			}
+			for w, name := range []string{"LazyArgumentMap", "MarshalerMap"} {
+				if got[w] != first[w] {
+					da, db := c10FirstDiff(first[w], got[w])
+					r.violate(Violation{Kind: "property", Key: "C10:nondeterministic:core-argument-maps:" + name,
+						What:  "json.Marshal of the same core." + name + " differs between repetitions",
+						Input: map[string]interface{}{"keys": ks}, Impl: map[string]string{"first": da, "later": db}, Expect: "byte-identical output"})
+					k = reps
+					break
+				}
+			}
+		}
+		r.count("coremap\x00"+strings.Join(ks, ","), true)
+		r.Evals += reps - 1
+	}
+	r.hist("core-argument-maps")
 }
